@@ -62,6 +62,13 @@ public:
 
         for (std::size_t i = 0; i != size; ++i)
         {
+            // consume the newline character that separates the distributions, but nothing else -
+            // the name of a distribution may be empty or start with blanks
+            if (in.peek() == '\n')
+            {
+                in.ignore();
+            }
+
             distributions_.emplace_back(in);
         }
     }
